@@ -105,6 +105,11 @@ def crc_lines(rnd, n_extra):
             m = rbytes(rnd, n)
             cs = rnd.choice(cuts_for(rnd, n, [1, 3, 7, 8, 9, 15, 16, 17, 24]))
             L.append("crc %s %d %s" % (",".join(map(str, cs)) or "-", align, hx(m)))
+    # long single updates (vectorised and multi-lane code starts at some size: 128 bytes, 4 KiB lanes, ...), at odd alignments
+    for n in (1024, 4096 + 9, 12288, 12288 + 77, 3 * 4096 + 4095, 40000):
+        for align in (0, 3, 8, 13):
+            L.append("crc %d %d %s" % (n, align, hx(rbytes(rnd, n))))
+            L.append("crc %s %d %s" % (",".join(map(str, [n // 3, n - n // 3])), align, hx(rbytes(rnd, n))))
     for _ in range(n_extra):
         n = rnd.randint(0, 150)
         cs = rnd.choice(cuts_for(rnd, n, [rnd.randint(0, max(1, n)) for _ in range(4)]))
